@@ -492,6 +492,75 @@ impl E2 {
                 },
                 None => "err:NoTxn".into(),
             },
+            ["checkpoint", c] => {
+                let d = self.dir.path().join(format!("ckpt{}", c));
+                let _ = std::fs::remove_dir_all(&d);
+                let _g = self.rt.enter();
+                match self.tree.as_ref().unwrap().create_checkpoint(&d) {
+                    Ok(_) => "ok".into(),
+                    Err(e) => format!("err:{}", err_name(&e)),
+                }
+            }
+            ["restore", c] => {
+                // open transactions and cursors end (the generator starts fresh ones)
+                self.cur_owner.clear();
+                self.txs.clear();
+                let d = self.dir.path().join(format!("ckpt{}", c));
+                if !d.exists() {
+                    return "err:NoTxn".into();
+                }
+                let _g = self.rt.enter();
+                match self.tree.as_ref().unwrap().restore_from_checkpoint(&d) {
+                    Ok(_) => "ok".into(),
+                    Err(e) => format!("err:{}", err_name(&e)),
+                }
+            }
+            ["ckptscan", c] => {
+                // the checkpoint directory (a copy of it) opened as a database of its own
+                let src = self.dir.path().join(format!("ckpt{}", c));
+                let dst = self.dir.path().join(format!("ckptopen{}", c));
+                if !src.exists() {
+                    return "err:NoTxn".into();
+                }
+                let _ = std::fs::remove_dir_all(&dst);
+                if let Err(e) = copy_dir(&src, &dst) {
+                    return format!("err:copy:{}", e);
+                }
+                let mut o = self.opts.clone().unwrap();
+                o.path = dst.clone();
+                let _g = self.rt.enter();
+                let t = match TreeBuilder::with_options(o).build() {
+                    Ok(t) => t,
+                    Err(e) => return format!("err:open:{}", err_name(&e)),
+                };
+                let res = {
+                    let tx = match t.begin_with_mode(Mode::ReadOnly) {
+                        Ok(tx) => tx,
+                        Err(e) => return format!("err:{}", err_name(&e)),
+                    };
+                    let mut out = Vec::new();
+                    let r = (|| -> Result<(), Error> {
+                        let mut ro = ReadOptions::new();
+                        ro.set_iterate_lower_bound(None);
+                        ro.set_iterate_upper_bound(None);
+                        let mut it = tx.range_with_options(&ro)?;
+                        let mut v = it.seek_first()?;
+                        while v {
+                            out.push(format!("{}={}", bytes_to_hex(it.key().user_key()), show_val(&it.value()?)));
+                            v = it.next()?;
+                        }
+                        Ok(())
+                    })();
+                    match r {
+                        Ok(()) => format!("list:{}", out.join(",")),
+                        Err(e) => format!("err:{}", err_name(&e)),
+                    }
+                };
+                let _ = self.rt.block_on(t.close());
+                drop(t);
+                let _ = std::fs::remove_dir_all(&dst);
+                res
+            }
             ["rotate"] => self.phys(|t| fe::rotate(t)),
             ["flush"] => self.phys(|t| fe::flush_all(t)),
             ["flush1"] => self.phys(|t| fe::flush_oldest(t).map(|_| ())),
@@ -528,6 +597,21 @@ impl Drop for E2 {
 }
 #[allow(dead_code)]
 fn _unused(_: Arc<()>) {}
+
+fn copy_dir(src: &std::path::Path, dst: &std::path::Path) -> std::io::Result<()> {
+    std::fs::create_dir_all(dst)?;
+    for e in std::fs::read_dir(src)? {
+        let e = e?;
+        let p = e.path();
+        let q = dst.join(e.file_name());
+        if p.is_dir() {
+            copy_dir(&p, &q)?;
+        } else {
+            std::fs::copy(&p, &q)?;
+        }
+    }
+    Ok(())
+}
 
 extern "C" {
     fn _exit(code: i32) -> !;
